@@ -25,6 +25,7 @@ func init() {
 			{ID: "C02.R2", Title: "for every decoder type constructed only for nilable kinds (derived from compile), the null path of Decode and DecodeStream (in the method or the helper that receives p) stores through the destination pointer", Covers: "null handling agrees with encoding/json for pointers, maps, slices, interfaces", Min: 8, Run: c02r2},
 			{ID: "C02.R3", Title: "numDecoder and Token choose the number representation by s.UseNumber, the empty-interface stream decoder decodes numbers only through numDecoder, and the unknown-key branch of structDecoder.DecodeStream tests s.DisallowUnknownFields before skipValue", Covers: "UseNumber and DisallowUnknownFields keep the agreement", Min: 4, Run: c02r3},
 			{ID: "C02.R4", Title: "in every decoder function that works in an array taken from a sync.Pool, each element slot handed to the element decoder is cleared under a guard equivalent to `callerLen <= idx` (so every slot the caller's elements do not cover is zero, whatever an earlier call left in the array)", Covers: "the result into a zero or shorter destination does not depend on earlier calls (reused pointers and slices)", Min: 2, Run: c02r4},
+			{ID: "C05.R2", Title: "number tokens are checked against the JSON number grammar before they are converted (shared with C05)", Covers: "Unmarshal returns an error exactly when encoding/json does (01, 1., -.5 are syntax errors)", Min: 8, Run: c05r2},
 			{ID: "C16.R2", Title: "integer range tests per destination kind (shared with C16)", Covers: "numeric range errors agree", Configs: []string{"default"}, Deep: []string{"386"}, Min: 20, Run: c16r2},
 			{ID: "C16.R1", Title: "integer accumulation cannot overflow silently (shared with C16)", Covers: "numeric range errors agree", Min: 2, Run: c16r1},
 			{ID: "C07.R1", Title: "raw stores match the destination's kind (shared with C07)", Covers: "null and scalars leave a well-formed destination", Min: 12, Run: c07r1},
@@ -40,6 +41,8 @@ func init() {
 			{ID: "C03.R1", Title: "every appendFloat32/appendFloat64 call in Run of each VM is dominated by `math.IsInf(v,0) || math.IsNaN(v)` on the same variable whose true branch returns an error", Covers: "NaN and infinities of either width produce an error, never output", Min: 190, Run: c03r1},
 			{ID: "C03.R2", Title: "in AppendMarshalJSON[Indent]/AppendMarshalText[Indent] no value derived from the user's MarshalJSON/MarshalText result reaches the returned buffer except through compact/doIndent/AppendString", Covers: "ill-formed marshaler output gives an error, never output", Min: 8, Run: c03r2},
 			{ID: "C03.R3", Title: "per VM package: emitters end with appendComma's bytes, closers consume exactly len(appendComma) bytes of the tail, and package json trims exactly that many after encode/encodeIndent", Covers: "no dangling comma / unbalanced bracket from the trailing-separator protocol", Min: 60, Run: c03r3},
+			{ID: "C05.R6", Title: "json.Number values and numbers in marshaler output are checked against the JSON number grammar before they are written (shared with C05)", Covers: "no ill-formed number in the output; an ill-formed json.Number is an error", Min: 3, Run: c05r6},
+			{ID: "C17.R1", Title: "string appenders escape every control byte, quote and backslash on the 8-byte fast path, the tail loop and the slow loop (shared with C17)", Covers: "no raw control character inside an emitted string", Min: 150, Run: c17r1},
 		},
 	})
 	core.Register(&core.Property{
@@ -59,7 +62,8 @@ func init() {
 		NotCovered: "the language itself: number grammar (strconv.ParseFloat accepts 01, 1., -.5), ordering of tokens (a comma after a value, a colon after a key), Valid's use of the stream decoder, literals in stream mode (see C09.R2).",
 		Rules: []*core.Rule{
 			{ID: "C05.R1", Title: "byte classes of every scanner state: in-string dispatch sends 0x01-0x1f to an error; value-level dispatch lets only blank { } [ ] \" , : - 0-9 t f n NUL avoid an error; escape dispatch accepts exactly \" \\ / b f n r t u and tests four hex digits after u", Covers: "raw control characters, stray bytes in ignored parts, invalid escapes cause an error", Min: 100, Run: c05r1},
-			{ID: "C05.R2", Title: "every function that consumes a run of floatTable/numTable bytes hands the token to strconv.ParseFloat/parseInt/parseUint (or returns it to callers that all do) before reporting success", Covers: "malformed numbers cause an error even in ignored parts", Min: 8, Run: c05r2},
+			{ID: "C05.R2", Title: "every function that consumes a run of floatTable/numTable bytes hands the token to validNumber/parseInt/parseUint (or returns it to callers that all do) before reporting success, strconv.ParseFloat not counting as a validator", Covers: "malformed numbers cause an error even in ignored parts", Min: 8, Run: c05r2},
+			{ID: "C05.R6", Title: "the encoder's number scanner (compactNumber: Compact, Indent, Valid, marshaler output) and AppendNumber (json.Number) call validNumber before writing, and decoder.validNumber and encoder.validNumber are statement-for-statement the same function", Covers: "Valid/Compact/Indent accept exactly the RFC 8259 numbers; Unmarshal and Valid agree", Min: 3, Run: c05r6},
 			{ID: "C05.R3", Title: "every success return of unmarshal/unmarshalContext/unmarshalNoEscape/extractFromPath after the decode call is the result of validateEndBuf, and validateEndBuf's NUL clause checks the cursor against len(src)", Covers: "anything following the value, including bytes after an embedded NUL, causes an error", Min: 6, Run: c05r3},
 			{ID: "C05.R5", Title: "in every container separator dispatch (a byte switch with clauses for ',' and a closing bracket) each path from the ',' clause to a successful return passes a call that scans another element", Covers: "trailing commas cause an error", Min: 8, Run: c05r5},
 			{ID: "C05.R4", Title: "floatTable (both copies), numTable, isWhiteSpace (both copies), validEndNumberChar, hexToInt hold exactly the RFC 8259 character sets", Covers: "no scanner consults a widened class", Min: 1700, Run: c05r4},
@@ -242,7 +246,7 @@ func init() {
 		Rules: []*core.Rule{
 			{ID: "C16.R1", Title: "if len(pow10 table) digits can exceed the accumulator type, parseInt/parseUint contain an erroring comparison that mentions the type's bound (or delegate to strconv)", Covers: "a literal that does not fit 64 bits is an error, never a wrapped number", Min: 2, Run: c16r1},
 			{ID: "C16.R2", Title: "the switch over the destination kind in intDecoder/uintDecoder Decode and DecodeStream has, for every kind narrower than 64 bits in this configuration, a range test that is true exactly outside the kind's range and exits with an error", Covers: "a literal that does not fit the destination is an error, never truncated", Configs: []string{"default"}, Deep: []string{"386"}, Min: 20, Run: c16r2},
-			{ID: "C16.R3", Title: "in intDecoder.decodeByte and decodeStreamByte the clause accepting '-' tests the token length with an error exit", Covers: "a bare minus sign is an error", Min: 2, Run: c16r3},
+			{ID: "C16.R3", Title: "in intDecoder.decodeByte and decodeStreamByte the clause accepting '-' tests the token length with an error exit, and rejects a leading 0 followed by more digits", Covers: "a bare minus sign is an error", Min: 2, Run: c16r3},
 			{ID: "C16.R4", Title: "decoder: each numeric kind's constructor stores through a pointer of exactly that Go type; encoder: every bitSize the compiler emits has a case in AppendInt/AppendUint/ptrToUint64 and equals the width of the kind it is chosen for", Covers: "every integer width is read and written at its own width", Configs: []string{"default"}, Deep: []string{"386"}, Min: 60, Run: c16r4},
 			{ID: "C04.R2", Title: "digit-pair, power-of-ten and hex tables (shared with C04)", Covers: "exact decimal printing and parsing", Min: 250, Run: c04r2},
 		},
@@ -259,6 +263,7 @@ func init() {
 			{ID: "C18.R5", Title: "compactValue/indentValue, compactObject/indentObject, compactArray/indentArray send each of the 256 byte values to an error, to the same delegate, or to inline handling alike", Covers: "Compact and Indent accept the same texts and share string/number/literal handling", Min: 3, Run: c18r5},
 			{ID: "C05.R1", Title: "byte classes of every scanner state (shared with C05; includes compactString)", Covers: "raw control characters and invalid escapes are rejected by Compact/Indent/Valid", Min: 100, Run: c05r1},
 			{ID: "C05.R3", Title: "trailing-input check (shared with C05; includes encoder.validateEndBuf)", Covers: "anything after the value makes Compact/Indent fail", Min: 6, Run: c05r3},
+			{ID: "C05.R6", Title: "the number scanner of Compact/Indent/Valid checks each token against the JSON number grammar (shared with C05)", Covers: "Compact/Indent/Valid fail exactly when encoding/json's do (01, 1., -.5)", Min: 3, Run: c05r6},
 		},
 	})
 	core.Register(&core.Property{
